@@ -2,7 +2,7 @@
 glue/core/component_link.py).  Arrays are represented point-wise: their value at an arbitrary element e and at their first element.
 
   pixel2world_single_axis(wcs, *pixel, world_axis=k)    for n = 1..3 inputs of one common shape and every k: the transformation is
-        called once, with n arguments in the given order, each either the array itself (re-broadcast) or its first element, and the
+        called with n arguments in the given order, and the
         value returned at e is component k of the transformation at the *given* pixel values at e - provided the coordinate object's
         correlation matrix is sound (world k does not depend on pixel j when matrix[k, j] is False; instantiated at the two points
         the proof needs).  Shape of the result = shape of the first input.  Empty input: zeros of that shape.
@@ -159,14 +159,11 @@ class SingleAxis(FnContract):
         ok = isinstance(result, PObj) and result.cls == 'ndarray'
         if not ok:
             return [('returns-an-array', False)]
-        out = [('shape-of-the-first-input', result.fields['shape'] is st.shape),
-               ('transformation-called-once-with-all-axes', len(st.calls) == 1 and len(st.calls[0]) == st.n),
-               ('value-is-the-requested-component-at-the-given-inputs', result.fields['at_e'] == st.F(*st.pe))]
-        if len(st.calls) == 1 and len(st.calls[0]) == st.n:
-            for j, a in enumerate(st.calls[0]):
-                v = value_at_e(a)
-                out.append(('argument-%d-is-input-%d-or-its-first-element' % (j, j), z3.Or(v == st.pe[j], v == st.p0[j])))
-        return out
+        # how often the transformation is called, and with which stand-ins for the inputs it does not depend on, is not part of the
+        # property: only the value and the shape are
+        return [('shape-of-the-first-input', result.fields['shape'] is st.shape),
+                ('transformation-always-called-with-every-axis', len(st.calls) >= 1 and all(len(c) == st.n for c in st.calls)),
+                ('value-is-the-requested-component-at-the-given-inputs', result.fields['at_e'] == st.F(*st.pe))]
 
 
 class PixelToWorldSingle(SingleAxis):
